@@ -312,6 +312,12 @@ pub fn spec(check: &str, tier: &str) -> Option<CheckSpec> {
                 v.into_iter().step_by(step).collect()
             };
             progs.extend(pick(fam::wait_family(1, 2, 2, 12, true, true, true), if tier == "quick" { 10 } else { 150 }));
+            // choices loom makes that are not decisions of the path (which of two condvar waiters
+            // notify_one wakes, which pending thread a release wakes first) must be functions of
+            // the execution, not of addresses or hash seeds
+            progs.extend(pick(fam::wait_family(2, 1, 1, 12, true, false, false), if tier == "quick" { 4 } else { 40 }));
+            progs.extend(pick(fam::wait_loop_family(false).into_iter().filter(|p| p.name.starts_with("WAIT-loop-cv-2w")).collect(), if tier == "quick" { 2 } else { 8 }));
+            progs.extend(pick(fam::lock_family(0, 1, 3, 2, 6, true, false), if tier == "quick" { 3 } else { 30 }));
             progs.extend(pick(fam::chan_family(2, 2, 2, true), if tier == "quick" { 6 } else { 60 }));
             progs.extend(pick(fam::a_sc(1, 2, 2, 4, false), if tier == "quick" { 10 } else { 80 }));
             progs.extend(pick(fam::stat_programs("quick"), if tier == "quick" { 14 } else { 120 }));
@@ -680,6 +686,13 @@ pub fn c16_programs(tier: &str) -> Vec<Program> {
     v.extend(pick(fam::arc_family(1, 2, 1, 3, false, true, false), k));
     v.extend(pick(fam::leak_family(), k + 1));
     v.extend(pick(fam::stat_programs("quick").into_iter().filter(|p| p.threads.len() >= 3).collect(), k + 1));
+    // per-thread state of the main thread that an iteration can leave behind: an unconsumed park
+    // token (main skips its park because the flag is already up, the child unparks anyway)
+    {
+        use crate::ir::*;
+        v.extend(pick(fam::wait_loop_family(false).into_iter().filter(|p| p.name == "WAIT-loop-1-S1").collect(), 2));
+        v.push(with_main("C16-park-fast-path", atomics(1), vec![], vec![vec![swap(0, 1, MO::Sc), K::Unpark { t: 0 }.into()]], vec![fadd(0, 0, MO::Sc), K::Park.when(1, Res::V(0)), fadd(0, 0, MO::Sc)], vec![]));
+    }
     // exploration controls: a skip_branch() that fires only in some iterations, a region
     {
         use crate::ir::*;
